@@ -12,6 +12,7 @@ Inductive val :=
 | VUnit
 | VTok (t : tok)
 | VNat (n : nat)
+| VNum (n : N)                      (* a user-state observation *)
 | VPair (a b : val)
 | VList (l : list val)
 | VOpt (o : option val)
@@ -61,9 +62,9 @@ Inductive mw := MWSpan | MWState | MWCtx | MWAll | MWSlice.
 Definition apmw (f : mw) (v : val) (sp : span) (sl : span) (ust : N) (ctx : val) : val :=
   match f with
   | MWSpan => VPair v (VSpan (fst sp) (snd sp))
-  | MWState => VPair v (VNat (N.to_nat ust))
+  | MWState => VPair v (VNum ust)
   | MWCtx => VPair v ctx
-  | MWAll => VPair v (VPair (VSpan (fst sp) (snd sp)) (VPair (VNat (N.to_nat ust)) ctx))
+  | MWAll => VPair v (VPair (VSpan (fst sp) (snd sp)) (VPair (VNum ust) ctx))
   | MWSlice => VPair v (VSlice (fst sl) (snd sl))
   end.
 
